@@ -9,33 +9,66 @@ from vlib import Infra
 PROPS = []
 
 
-def run_net(ctx):
-    d = ctx.specdir("Net")
+GRAPH_EVENTS = ("WS", "SNR", "UEH", "WCS")      # storage/verif_hook.go (this module's events)
+TEST_CMD = [vlib.GO, "test", "-tags", "verif", "-count=1", "-vet=off", "-timeout", "25m", "-run", "^TestConsensus$", "./rpc"]
+
+
+def record(ctx):
+    """One run of the repository's multi-node test with the build tag verif; returns (events, output).
+    The file holds the durable-write events of storage/verif_hook.go and, when /repo has them, the CoSi
+    protocol events of kernel/verif_hook.go (tools/props/cosinet.py). The test binds fixed localhost
+    ports, so it runs inside a private network namespace (parallel checks do not collide); the result is
+    remembered on ctx so that netrace.run_net and cosinet.run_cosinet of one check share one run. The
+    test is flaky on loaded machines (its own testVerifyInfoAfter assertions): whatever trace was
+    recorded is judged, the test's verdict is only noted."""
+    if getattr(ctx, "_net_record", None):
+        return ctx._net_record
     trace = os.path.join(ctx.scratch, "net.ndjson")
     e = vlib.goenv()
     e["VERIF_NET_TRACE"] = trace
+    e["TMPDIR"] = ctx.harness_tmp()
     out = ""
+    netns = True
     for attempt in range(4):
         if os.path.exists(trace):
             os.remove(trace)
-        p = subprocess.Popen([vlib.GO, "test", "-tags", "verif", "-count=1", "-vet=off", "-timeout", "25m", "-run", "^TestConsensus$", "./rpc"],
-                             cwd=vlib.REPO, env=e, stdout=subprocess.PIPE, stderr=subprocess.STDOUT, text=True, errors="replace",
+        cmd = TEST_CMD
+        if netns:
+            cmd = ["unshare", "-n", "bash", "-c", "ip link set lo up && exec " + " ".join("'%s'" % c for c in TEST_CMD)]
+        p = subprocess.Popen(cmd, cwd=vlib.REPO, env=e, stdout=subprocess.PIPE, stderr=subprocess.STDOUT, text=True, errors="replace",
                              start_new_session=True)
         try:
             out, _ = p.communicate(timeout=1700)
         except subprocess.TimeoutExpired:
             os.killpg(p.pid, signal.SIGKILL)
             raise Infra("multi-node test timed out")
+        if netns and not os.path.exists(trace) and ("unshare" in out or "Operation not permitted" in out or "ip:" in out):
+            netns = False            # no private namespace available: run on the host's loopback as before
+            continue
         if "address already in use" in out:
             time.sleep(120)
             continue
         break
     else:
         raise Infra("multi-node test could not bind its ports (another instance is running)")
-    ctx.checker_cmds.append("VERIF_NET_TRACE=... go1.26 test -tags verif -run ^TestConsensus$ ./rpc")
+    ctx.checker_cmds.append("unshare -n; VERIF_NET_TRACE=... go1.26 test -tags verif -run ^TestConsensus$ ./rpc")
     if not os.path.exists(trace):
         raise Infra("multi-node test wrote no trace:\n" + out[-2000:])
-    events = vlib.read_ndjson(trace)
+    events = []
+    with open(trace) as fh:
+        for line in fh:
+            try:
+                events.append(json.loads(line))
+            except ValueError:       # a line cut short by the end of the test process
+                break
+    ctx._net_record = (events, out)
+    return ctx._net_record
+
+
+def run_net(ctx):
+    d = ctx.specdir("Net")
+    events, out = record(ctx)
+    events = [ev for ev in events if ev.get("ev") in GRAPH_EVENTS]
     if len(events) < 500:
         raise Infra("multi-node trace too short (%d events):\n%s" % (len(events), out[-1500:]))
     nets = {}
